@@ -177,7 +177,32 @@ package template
 //   FrameOK: maps other than the four the import bookkeeping writes, and name sets other than the scope's, are untouched.
 //@ define FrameOK(m *MethodScope, imports map[string]*Package) bool = (forall mm map[string]*Package :: mm != imports && mm != m.imports && mm != m.registry.imports && mm != m.registry.importQualifiers && old(allocated(mm)) ==> unchanged(mm))
 //@     && (forall nn map[string]any :: nn != m.visibleNames && old(allocated(nn)) ==> unchanged(nn))
-//@ func (*MethodScope).populateImportsHelper props=C01,C15,C02,C14
+// Termination of the import walk (C09: no stack exhaustion): a type expression is a finite tree over the
+// go/types constructors below; a named type, an alias and a type parameter are leaves of that tree apart
+// from their type arguments (their declarations, underlying types and constraints may refer back to
+// themselves and are NOT components). tsize/lsize is the size of the tree; the axioms say that each
+// component is smaller. There is deliberately no axiom for TypeParam.Constraint() or Named.Underlying().
+//@ spec tsize(t types.Type) int
+//@ spec lsize(l *types.TypeList) int
+//@ axiom tsize_nonneg: forall t types.Type :: tsize(t) >= 0
+//@ axiom lsize_nonneg: forall l *types.TypeList :: lsize(l) >= 0
+//@ axiom tsize_list: forall l *types.TypeList, i int :: l != nil && 0 <= i && i < l.Len() ==> tsize(l.At(i)) < lsize(l)
+//@ axiom tsize_named: forall t types.Type :: dyn(t) == tagof(*types.Named) ==> lsize(unbox(*types.Named, t).TypeArgs()) < tsize(t)
+//@ axiom tsize_alias: forall t types.Type :: dyn(t) == tagof(*types.Alias) ==> lsize(unbox(*types.Alias, t).TypeArgs()) < tsize(t)
+//@ axiom tsize_array: forall t types.Type :: dyn(t) == tagof(*types.Array) ==> tsize(unbox(*types.Array, t).Elem()) < tsize(t)
+//@ axiom tsize_slice: forall t types.Type :: dyn(t) == tagof(*types.Slice) ==> tsize(unbox(*types.Slice, t).Elem()) < tsize(t)
+//@ axiom tsize_chan: forall t types.Type :: dyn(t) == tagof(*types.Chan) ==> tsize(unbox(*types.Chan, t).Elem()) < tsize(t)
+//@ axiom tsize_pointer: forall t types.Type :: dyn(t) == tagof(*types.Pointer) ==> tsize(unbox(*types.Pointer, t).Elem()) < tsize(t)
+//@ axiom tsize_map: forall t types.Type :: dyn(t) == tagof(*types.Map) ==> tsize(unbox(*types.Map, t).Key()) < tsize(t) && tsize(unbox(*types.Map, t).Elem()) < tsize(t)
+//@ axiom tsize_params: forall t types.Type, i int :: dyn(t) == tagof(*types.Signature) && 0 <= i && i < unbox(*types.Signature, t).Params().Len() ==> tsize(unbox(*types.Signature, t).Params().At(i).Type()) < tsize(t)
+//@ axiom tsize_results: forall t types.Type, i int :: dyn(t) == tagof(*types.Signature) && 0 <= i && i < unbox(*types.Signature, t).Results().Len() ==> tsize(unbox(*types.Signature, t).Results().At(i).Type()) < tsize(t)
+//@ axiom tsize_fields: forall t types.Type, i int :: dyn(t) == tagof(*types.Struct) && 0 <= i && i < unbox(*types.Struct, t).NumFields() ==> tsize(unbox(*types.Struct, t).Field(i).Type()) < tsize(t)
+//@ axiom tsize_terms: forall t types.Type, i int :: dyn(t) == tagof(*types.Union) && 0 <= i && i < unbox(*types.Union, t).Len() ==> tsize(unbox(*types.Union, t).Term(i).Type()) < tsize(t)
+//@ axiom tsize_methods: forall t types.Type, i int :: dyn(t) == tagof(*types.Interface) && 0 <= i && i < unbox(*types.Interface, t).NumExplicitMethods() ==> tsize(unbox(*types.Interface, t).ExplicitMethod(i).Type()) < tsize(t)
+//@ axiom tsize_embeds: forall t types.Type, i int :: dyn(t) == tagof(*types.Interface) && 0 <= i && i < unbox(*types.Interface, t).NumEmbeddeds() ==> tsize(unbox(*types.Interface, t).EmbeddedType(i)) < tsize(t)
+
+//@ func (*MethodScope).populateImportsHelper props=C01,C15,C02,C14,C09
+//@   decreases 2 * tsize(t)
 //@   requires ImpOK(m, imports)
 //@   ensures#inv ImpOK(m, imports) && m.registry == old(m.registry) && m.imports == old(m.imports) && m.visibleNames == old(m.visibleNames)
 //@   ensures#mono forall p string :: old(p in imports) ==> (p in imports)
@@ -185,20 +210,27 @@ package template
 //@   ensures#names forall n string :: old(n in m.visibleNames) ==> (n in m.visibleNames)
 //@   ensures#covers cov(t, keys(imports))
 //@   loop 0: invariant ImpOK(m, imports) && m.registry == old(m.registry) && m.imports == old(m.imports) && m.visibleNames == old(m.visibleNames) && (forall p string :: old(p in imports) ==> (p in imports)) && (forall n string :: old(n in m.visibleNames) ==> (n in m.visibleNames)) && FrameOK(m, imports) && sub(old(keys(imports)), keys(imports))
+//@   loop 0: invariant#idx 0 <= i
 //@   loop 0: invariant#cov forall k int :: 0 <= k && k < i ==> cov(unbox(*types.Signature, t).Params().At(k).Type(), keys(imports))
 //@   loop 1: invariant ImpOK(m, imports) && m.registry == old(m.registry) && m.imports == old(m.imports) && m.visibleNames == old(m.visibleNames) && (forall p string :: old(p in imports) ==> (p in imports)) && (forall n string :: old(n in m.visibleNames) ==> (n in m.visibleNames)) && FrameOK(m, imports) && sub(old(keys(imports)), keys(imports)) && covTuple(unbox(*types.Signature, t).Params(), keys(imports))
+//@   loop 1: invariant#idx 0 <= i
 //@   loop 1: invariant#cov forall k int :: 0 <= k && k < i ==> cov(unbox(*types.Signature, t).Results().At(k).Type(), keys(imports))
 //@   loop 2: invariant ImpOK(m, imports) && m.registry == old(m.registry) && m.imports == old(m.imports) && m.visibleNames == old(m.visibleNames) && (forall p string :: old(p in imports) ==> (p in imports)) && (forall n string :: old(n in m.visibleNames) ==> (n in m.visibleNames)) && FrameOK(m, imports) && sub(old(keys(imports)), keys(imports))
+//@   loop 2: invariant#idx 0 <= i
 //@   loop 2: invariant#cov forall k int :: 0 <= k && k < i ==> cov(unbox(*types.Struct, t).Field(k).Type(), keys(imports))
 //@   loop 3: invariant ImpOK(m, imports) && m.registry == old(m.registry) && m.imports == old(m.imports) && m.visibleNames == old(m.visibleNames) && (forall p string :: old(p in imports) ==> (p in imports)) && (forall n string :: old(n in m.visibleNames) ==> (n in m.visibleNames)) && FrameOK(m, imports) && sub(old(keys(imports)), keys(imports))
+//@   loop 3: invariant#idx 0 <= i
 //@   loop 3: invariant#cov forall k int :: 0 <= k && k < i ==> cov(unbox(*types.Union, t).Term(k).Type(), keys(imports))
 //@   loop 4: invariant ImpOK(m, imports) && m.registry == old(m.registry) && m.imports == old(m.imports) && m.visibleNames == old(m.visibleNames) && (forall p string :: old(p in imports) ==> (p in imports)) && (forall n string :: old(n in m.visibleNames) ==> (n in m.visibleNames)) && FrameOK(m, imports) && sub(old(keys(imports)), keys(imports))
+//@   loop 4: invariant#idx 0 <= i
 //@   loop 4: invariant#cov forall k int :: 0 <= k && k < i ==> cov(unbox(*types.Interface, t).ExplicitMethod(k).Type(), keys(imports))
 //@   loop 5: invariant ImpOK(m, imports) && m.registry == old(m.registry) && m.imports == old(m.imports) && m.visibleNames == old(m.visibleNames) && (forall p string :: old(p in imports) ==> (p in imports)) && (forall n string :: old(n in m.visibleNames) ==> (n in m.visibleNames)) && FrameOK(m, imports) && sub(old(keys(imports)), keys(imports)) && covMethods(unbox(*types.Interface, t), keys(imports))
+//@   loop 5: invariant#idx 0 <= i
 //@   loop 5: invariant#cov forall k int :: 0 <= k && k < i ==> cov(unbox(*types.Interface, t).EmbeddedType(k), keys(imports))
 //@   assigns imports, m.imports, m.visibleNames, m.registry.imports, m.registry.importQualifiers, fresh
 
-//@ func (*MethodScope).populateImportNamedType props=C01,C15,C02,C14
+//@ func (*MethodScope).populateImportNamedType props=C01,C15,C02,C14,C09
+//@   decreases 2 * lsize(t.TypeArgs()) + 1
 //@   requires ImpOK(m, imports) && t != nil
 //@   ensures#inv ImpOK(m, imports) && m.registry == old(m.registry) && m.imports == old(m.imports) && m.visibleNames == old(m.visibleNames)
 //@   ensures#mono forall p string :: old(p in imports) ==> (p in imports)
@@ -208,6 +240,7 @@ package template
 //@   ensures#args covList(t.TypeArgs(), keys(imports))
 //@   loop 0: invariant ImpOK(m, imports) && m.registry == old(m.registry) && m.imports == old(m.imports) && m.visibleNames == old(m.visibleNames) && (forall p string :: old(p in imports) ==> (p in imports)) && (forall n string :: old(n in m.visibleNames) ==> (n in m.visibleNames)) && FrameOK(m, imports) && sub(old(keys(imports)), keys(imports))
 //@   loop 0: invariant#own t.Obj().Pkg() != nil ==> has(keys(imports), t.Obj().Pkg().Path())
+//@   loop 0: invariant#idx 0 <= i
 //@   loop 0: invariant#cov targs == t.TypeArgs() && (forall k int :: 0 <= k && k < i ==> cov(targs.At(k), keys(imports)))
 //@   assigns imports, m.imports, m.visibleNames, m.registry.imports, m.registry.importQualifiers, fresh
 
